@@ -4,6 +4,7 @@ import Pdq.Props.C08
 import Pdq.Lemmas.Calib
 import Mathlib.Data.Matrix.Block
 import Mathlib.Logic.Equiv.Fin.Basic
+import Mathlib.Algebra.BigOperators.Field
 /-!
 # Lemmas for C14: the coefficient-major embedding of slices is a homomorphism
 
@@ -267,5 +268,22 @@ theorem embed_whitenedSq (cs : Fin d → Cond k n K) (gs : Fin d → Gauss n K) 
   simp only [Gauss.maha, Mat.bilin, embedGauss]
   rw [embedVec_zero, embedVec_sub, embedMat_mulVec, dot_eq, toV_embedVec, toV_embedVec, blk_quad]
   simp only [dot_eq]
+
+/-- a finite sum of list sums is the list sum of the finite sums (for an additive map `g`) -/
+theorem list_sum_finset_sum (E : List (Fin d → K)) (g : K → K) (hg : ∀ x y, g (x + y) = g x + g y) (h0 : g 0 = 0) :
+    (∑ a, (E.map fun e => g (e a)).sum) = (E.map fun e => g (∑ a, e a)).sum := by
+  have hsum : ∀ (e : Fin d → K), g (∑ a, e a) = ∑ a, g (e a) := by
+    intro e
+    have : ∀ (S : Finset (Fin d)), g (∑ a ∈ S, e a) = ∑ a ∈ S, g (e a) := by
+      intro S
+      induction S using Finset.induction_on with
+      | empty => simp [h0]
+      | insert a S ha ih => rw [Finset.sum_insert ha, Finset.sum_insert ha, hg, ih]
+    exact this Finset.univ
+  induction E with
+  | nil => simp
+  | cons e rest ih =>
+    simp only [List.map_cons, List.sum_cons, Finset.sum_add_distrib]
+    rw [ih, hsum]
 
 end Pdq.FactorL
